@@ -92,10 +92,10 @@ CLAIMED["C09"] = dict(
    text="Deductive proof (all inputs) that the counting functions pass exactly the documented options to group_notes and return the number of groups with at least the documented minimum (steps 1, jumps 2, hands 3 over tap / hold head / roll head / lift joined per beat; holds and rolls: {head, TAIL}, joined, the caller's orphan policies), that count_grouped_notes counts the groups of at least `minimum` notes and count_mines the notes of type MINE. group_notes itself (type filter, head/tail joining with its buffering, same-beat modes, which orphan an exception names) is a bounded stand-in: exhaustive comparison with a declarative reading of the statement over every stream of the 2-column grid and every option combination, run in 12 parallel slices - labelled bounded, hence level 'other'.",
    note="Trusted: group_notes as a function of its six arguments at the counters' call sites, sum(cond(x) for x in xs) as the count of x with cond(x), generator laziness ignored, VC generator, z3/cvc5. The buffering state machine of join_heads_to_tails_ was not brought under a loop invariant (DESIGN 6/C09).",
    technique="contract-based deductive verification of the counters (call-site obligations) with a bounded exhaustive stand-in for group_notes", design_ref="6/C09")
-_ENG_NOTE = "Trusted: bisect's local-boundary contract, heapq.merge, A-FLOAT (floats are reals; the 1e-9 s accuracy clause is not decided), SM_inv for the state list in the look-up units, VC generator, z3/cvc5. _coalesce_warps and _retime_events (union of warps, merge order, establishing SM_inv) were not brought under loop invariants; they are exercised only by the bounded stand-in."
+_ENG_NOTE = "Trusted: bisect's local-boundary contract, heapq.merge, A-FLOAT (floats are reals; the 1e-9 s accuracy clause is not decided), SM_inv for the state list in the look-up units, VC generator, z3/cvc5. _retime_events (merge order, building the state list, establishing SM_inv) was not brought under a loop invariant; it is exercised only by the bounded stand-in. _coalesce_warps is proved (alternating segments covering exactly the union of the warps)."
 CLAIMED["C11"] = dict(
    category="other",
-   text="Deductive proof (all inputs) of the EventTag order (closed term), TaggedEvent.__lt__ = (beat, tag) lexicographic, TimingState.time_until = the statement's formula, TimingStateMachine.advance = the recurrence step, and time_at / bpm_at = extrapolation from the last state at or before (beat, tag). The identity 'recurrence built by _coalesce_warps/_retime_events == the statement's integral timeline', monotonicity, offset shift and redundant-BPM invariance are a bounded stand-in: the real engine against an exact-rational evaluation of the statement on all placements of up to 3 events on a beat grid, every quarter beat, every tag - labelled bounded, hence level 'other'.",
+   text="Deductive proof (all inputs) of the EventTag order (closed term), TaggedEvent.__lt__ = (beat, tag) lexicographic, TimingState.time_until = the statement's formula, TimingStateMachine.advance = the recurrence step, time_at / bpm_at = extrapolation from the last state at or before (beat, tag), and _coalesce_warps = strictly alternating WARP/WARP_END pairs covering exactly the union of the warp segments (loop invariant with universally quantified conjuncts, proved by single-instance skolemisation). The identity 'recurrence built by _retime_events == the statement's integral timeline', monotonicity, offset shift and redundant-BPM invariance are a bounded stand-in: the real engine against an exact-rational evaluation of the statement on all placements of up to 3 events on a beat grid, every quarter beat, every tag - labelled bounded, hence level 'other'.",
    note=_ENG_NOTE, technique="contract-based deductive verification of the state-machine step and look-ups, with a bounded exhaustive stand-in for the timeline identity", design_ref="6/C11")
 CLAIMED["C12"] = dict(
    category="other",
